@@ -25,6 +25,12 @@ structure DCl where
   pw : Nat := 0
   ph : Nat := 0
   cr : Bool := false                      -- cl->useCopyRect
+  cpy : Nat := 0                          -- superset of cl->copyRegion (pixel set): what may be sent as
+                                          -- CopyRect instead of pixel data
+  shape : Bool := false                   -- cl->enableCursorShapeUpdates (RichCursor announced)
+  cursorPending : Bool := false           -- cl->cursorWasChanged
+  soft : Bool := false                    -- the server paints the cursor into this client's updates:
+                                          -- its picture is not predicted
   lastBtn : Nat := 0                      -- cl->lastPtrButtons
   lastPtr : Option (Nat × Nat) := none    -- cl->lastPtrX/Y (coalesced motion, already mapped back)
   deriving Inhabited
@@ -35,6 +41,7 @@ structure DState where
   cls : List DCl := []
   defer : Nat := 0                        -- screen->deferPtrUpdateTime
   owner : Option Nat := none              -- screen->pointerClient
+  cursor : Bool := false                  -- the screen has a visible cursor
   deriving Inhabited
 
 def fmtOf (s : String) : Option (Fmt × Bool) :=
@@ -112,7 +119,7 @@ def paste (dst src : Img) (r : Rect) : Img :=
 /-- what one run of the event loop sends to client `d` (rfbUpdateClient → rfbSendFramebufferUpdate).
 returns new srv (newFBSizePending), new DCl, optional "nfs=WxH", and the rectangles
 (`none` = not predictable) -/
-def flushOne (s : Srv) (d : DCl) : Srv × DCl × Option String × Option (List (Rect × Rect)) :=
+def flushCore (s : Srv) (d : DCl) : Srv × DCl × Option String × Option (List (Rect × Rect)) :=
   if !d.live then (s, d, none, some []) else
   match s.clients.find? (·.id == d.id) with
   | none => (s, d, none, some [])
@@ -130,7 +137,13 @@ def flushOne (s : Srv) (d : DCl) : Srv × DCl × Option String × Option (List (
   let fullSet := rectMask s.main.w (fullRect s)
   let simg := imgOf s c.sw c.sh
   let upd := d.pend.set &&& d.rq.set
-  if upd == 0 then (s, d, nfsS, some []) else
+  if upd == 0 then
+    -- nothing to send, unless a cursor shape is due: that update consumes the request
+    (if d.shape && d.cursorPending then (s, { d with rq := {}, cursorPending := false }, nfsS, some [])
+     else (s, d, nfsS, some [])) else
+  -- pixels certainly sent as pixel data (a CopyRect client may get the copied part as CopyRect)
+  let updPix := upd &&& (fullSet ^^^ (d.cpy &&& fullSet))
+  let d := { d with cursorPending := false, cpy := 0 }
   let pendSet' := d.pend.set &&& (fullSet ^^^ upd)
   match d.rq.shape, d.pend.shape with
   | some R, some P =>
@@ -141,15 +154,19 @@ def flushOne (s : Srv) (d : DCl) : Srv × DCl × Option String × Option (List (
     let S := corr same s.main.w s.main.h c.sw c.sh I
     let pic' := match d.pic with
       | some p => some (paste p simg S)
-      | none => if upd == fullSet && d.pw == c.sw && d.ph == c.sh then some simg else none
+      | none => if updPix == fullSet && d.pw == c.sw && d.ph == c.sh then some simg else none
     let pend' : Pend := if rectEq I P then {} else ⟨pendSet', none⟩
-    (s, { d with pend := pend', rq := {}, pic := pic', insync := d.insync || upd == fullSet },
+    (s, { d with pend := pend', rq := {}, pic := pic', insync := d.insync || updPix == fullSet },
      nfsS, some [(I, S)])
   | _, _ =>
-    let ins := d.insync || upd == fullSet
+    let ins := d.insync || updPix == fullSet
     (s, { d with pend := ⟨pendSet', none⟩, rq := {}, insync := ins,
                  pic := if ins && pendSet' == 0 && d.pw == c.sw && d.ph == c.sh then some simg else none },
      nfsS, none)
+
+def flushOne (s : Srv) (d : DCl) : Srv × DCl × Option String × Option (List (Rect × Rect)) :=
+  let (s', d', n, r) := flushCore s d
+  (s', if d'.soft then { d' with pic := none } else d', n, r)
 
 /-- one pump: every client; returns the report for client `me` -/
 def flushAll (s : Srv) (cls : List DCl) (me : Nat) :
@@ -260,7 +277,9 @@ def doCopy (st : DState) (s : Srv) (x y w h : Nat) (dx dy : Int) : DState × Lis
   let s2 := step s1 (.modify r)
   let cls := st.cls.map fun d =>
     if !d.live then d
-    else if d.cr then { d with pend := ⟨d.pend.set ||| rectMask s.main.w r, none⟩, pic := none, insync := false }
+    else if d.cr then
+      { d with pend := ⟨d.pend.set ||| rectMask s.main.w r, none⟩, pic := none, insync := false,
+               cpy := d.cpy ||| rectMask s.main.w r }
     else { d with pend := d.pend.add s.main.w r }
   ({ st with srv := some s2, cls := cls }, ["ok"])
 
@@ -277,18 +296,20 @@ def dstep (st : DState) (toks : List String) : DState × List String :=
   | some s, "client" :: i :: nfs :: rest =>
     -- the optional encoding (raw | corre | zlib | ultra) does not change what the model predicts
     let isEnc (e : String) := e == "raw" || e == "corre" || e == "zlib" || e == "ultra"
-    let encOk := match rest with
+    let flags := rest.drop 1
+    let encOk := (match rest with
       | [] => true
-      | [e] => isEnc e
-      | [e, c] => isEnc e && c == "cr"
-      | _ => false
-    let useCr := rest.length == 2
+      | e :: _ => isEnc e) && flags.all (fun f => f == "cr" || f == "shape") && flags.eraseDups.length == flags.length
+    let useCr := flags.contains "cr"
+    let useShape := flags.contains "shape"
     match nat? i, nat? nfs with
     | some i, some nfs =>
       if !encOk || i ≥ 8 || st.cls.any (·.id == i) then bad else
       let s1 := step s (.join i (nfs != 0))
-      let d : DCl := { id := i, pend := Pend.add {} s.main.w (fullRect s), pic := some (zeros s.main.w s.main.h),
-                       insync := true, pw := s.main.w, ph := s.main.h, cr := useCr }
+      let d : DCl := { id := i, pend := Pend.add {} s.main.w (fullRect s),
+                       insync := true, pw := s.main.w, ph := s.main.h, cr := useCr,
+                       shape := useShape, cursorPending := useShape, soft := st.cursor && !useShape,
+                       pic := if st.cursor && !useShape then none else some (zeros s.main.w s.main.h) }
       let (s2, cls, _, _) := flushAll s1 (st.cls ++ [d]) i
       ({ st with srv := some s2, cls := cls }, ["ok"])
     | _, _ => bad
@@ -331,6 +352,9 @@ def dstep (st : DState) (toks : List String) : DState × List String :=
       | some _, some c => (st, [s!"cl {i} {c.sw}x{c.sh}" ++ (if isMain s c.sw c.sh then " self" else "")])
       | _, _ => bad
     | none => bad
+  | some s, ["cursor"] =>
+    if !st.cls.isEmpty || st.mapped || st.cursor || s.main.w < 16 || s.main.h < 16 then bad
+    else ({ st with cursor := true }, ["ok"])
   | some s, ["newfb", w, h, seed] =>
     -- rfbNewFramebuffer with a buffer of the same pixel format (outside the proved op set, see
     -- Props/C17.lean "boundary with C16"; a same-size swap is a `draw` of the whole screen):
@@ -384,7 +408,7 @@ def dstep (st : DState) (toks : List String) : DState × List String :=
             return m
           ⟨set', none⟩
       let cls := st.cls.map fun d =>
-        if d.live then { d with pend := Pend.add {} w full, rq := restride d.rq, insync := false } else d
+        if d.live then { d with pend := Pend.add {} w full, rq := restride d.rq, insync := false, cpy := 0 } else d
       ({ st with srv := some s', cls := cls }, [if collide then "newfb-collision" else "ok"])
     | _, _, _ => bad
   | some s, ["draw", x, y, w, h, seed] =>
@@ -444,7 +468,10 @@ def dstep (st : DState) (toks : List String) : DState × List String :=
             if R.w ≤ 0 || R.h ≤ 0 then d      -- sraRgnCreateRect: empty region
             else
               let d := { d with rq := d.rq.add s.main.w R }
-              if inc == 0 then { d with pend := d.pend.add s.main.w R } else d
+              if inc == 0 then
+                { d with pend := d.pend.add s.main.w R,
+                         cpy := d.cpy &&& (rectMask s.main.w (fullRect s) ^^^ rectMask s.main.w R) }
+              else d
         let (s2, cls, nfsS, rects) := flushAll s (putCl st.cls d1) i
         let pre := (if op == "req" then s!"upd {i}" else s!"updq {i}") ++
                    (match nfsS with | some t => " " ++ t | none => "")
@@ -466,6 +493,7 @@ def dstep (st : DState) (toks : List String) : DState × List String :=
         | none => (st, [s!"pic {i} ?"])
         | some p =>
           let hs := hex16 (imgHash s.fmt.bpp p)
+          if d.pw > s.main.w || d.ph > s.main.h then (st, [s!"pic {i} {hs} stale-size"]) else
           match firstDiff s st.mapped p d.pw d.ph with
           | none => (st, [s!"pic {i} {hs} eq"])
           | some (x, y, got, want) => (st, [s!"pic {i} {hs} DIFF {x} {y} {hexNat got} {hexNat want}"])
